@@ -23,6 +23,7 @@ func init() {
 			{Name: "receive-credit-before-mark", File: "vm/vm.go", Old: "\terr = vm.context.MarkAsReceived(block.FromBlockHash)\n\tif err != nil {\n\t\treturn err\n\t}\n\n\tvm.context.AddBalance(&fromBlock.TokenStandard, fromBlock.Amount)\n", New: "\tvm.context.AddBalance(&fromBlock.TokenStandard, fromBlock.Amount)\n\terr = vm.context.MarkAsReceived(block.FromBlockHash)\n\tif err != nil {\n\t\treturn err\n\t}\n", ExpectKeySub: "MarkAsReceived"},
 			{Name: "descendant-error-swallowed", File: "vm/vm.go", Old: "\t\terr := vm.applySend(dblock)\n\t\tif err != nil {\n\t\t\treturn vm.rollbackEmbedded(fromBlockHash, err)\n\t\t}\n", New: "\t\terr := vm.applySend(dblock)\n\t\tif err != nil {\n\t\t\tbreak\n\t\t}\n", ExpectKeySub: "applySend"},
 			{Name: "subbalance-allows-negative", File: "vm/vm_context/balance.go", Old: "if b.Cmp(amount) >= 0 {", New: "if b.Cmp(amount) >= -1 {", ExpectKeySub: "SubBalance"},
+			{Name: "regenerated-hash-self-compare", File: "vm/vm.go", Old: "computed := generated.ComputeHash()", New: "computed := block.ComputeHash()", ExpectKeySub: "ComputeHash"},
 			{Name: "burn-skips-supply", File: "vm/embedded/implementation/token.go", Old: "\ttokenInfo.TotalSupply.Sub(tokenInfo.TotalSupply, sendBlock.Amount)\n", New: "", ExpectKeySub: "TotalSupply.Sub"},
 		},
 	})
@@ -65,6 +66,16 @@ func runC01(r *Run) {
 	r.Has("vm/vm_context.(*accountVmContext).AddBalance", "recv.Account.SetBalance(a0,recv.Account.GetBalance(a0)#0)", "the new balance is stored under the same token")
 	r.Has("chain/account.(*accountStore).GetBalance", "recv.DB.Get(account.getBalanceKey(a0))", "reader and writer of a balance use the same key constructor")
 	r.Has("chain/account.(*accountStore).SetBalance", "recv.DB.Put(account.getBalanceKey(a0),common.BigIntToBytes(a1))", "reader and writer of a balance use the same key constructor")
+
+	// (2b) a credit happens at most once per send and contract receives are the node's own computation
+	r.Guards([]row{
+		{F: "verifier.(*accountBlockVerifier).fromHash", C: "T(recv.accountStore.IsReceived(recv.block.FromBlockHash)) @ F(recv.block.IsSendBlock())", Why: "a send credited twice creates tokens: the already-received test must read the block's own (pending) account state"},
+		{F: "verifier.(*accountBlockVerifier).fromHash", C: "eq(nil,recv.momentumStore.GetAccountBlockByHash(recv.block.FromBlockHash)#0) @ F(recv.block.IsSendBlock())", Why: "only a confirmed send can be credited"},
+		{F: "verifier.(*accountBlockVerifier).sequencer", C: "ne(recv.accountStore.SequencerFront(recv.momentumStore.GetAccountMailbox(recv.block.Address)),recv.momentumStore.GetAccountBlockByHash(recv.block.FromBlockHash)#0.Header()) @ T(recv.block.IsReceiveBlock()) & T(types.IsEmbeddedAddress(recv.block.Address))", Why: "a contract credits each queued send once: the received send must be the next in line"},
+		{F: "vm.(*VM).applyBlock", C: "ne(a0.ChangesHash,recv.generateEmbeddedReceive(a0.FromBlockHash)#0.ChangesHash) @ ne(2,a0.BlockType) & ne(3,a0.BlockType) & ne(4,a0.BlockType)", Why: "a submitted contract receive must have the state effect the node computes itself"},
+		{F: "vm.(*VM).applyBlock", C: "ne(a0.Hash,recv.generateEmbeddedReceive(a0.FromBlockHash)#0.ComputeHash()) @ ne(2,a0.BlockType) & ne(3,a0.BlockType) & ne(4,a0.BlockType)", Why: "a submitted contract receive (incl. descendant amounts and recipients) must equal the regenerated one, or a forged descendant credits more than the contract was debited"},
+		{F: "vm.(*VM).applyBlock", C: "ne(nil,vm.enoughPlasma(recv.context,a0))", Why: "shared entry"},
+	})
 
 	// (3) embedded receive: credit, failure ⇒ rollback ⇒ refund
 	gen := "vm.(*VM).generateEmbeddedReceive"
